@@ -80,8 +80,13 @@ func (batch *Batch) close() (err error) {
 	batch.conn = nil
 	batch.lock = nil
 
+	// What is left of the response has to be skipped. When that fails (the
+	// tail of the response is late and the deadline expires, the connection
+	// breaks) the connection is in the middle of a response: whatever the
+	// batch ended with, it cannot be kept.
+	var discardErr error
 	if batch.msgs != nil {
-		batch.msgs.discard()
+		discardErr = batch.msgs.discard()
 	}
 
 	if batch.msgs != nil && batch.msgs.decompressed != nil {
@@ -91,6 +96,9 @@ func (batch *Batch) close() (err error) {
 
 	if err = batch.err; errors.Is(batch.err, io.EOF) {
 		err = nil
+	}
+	if discardErr != nil {
+		err = dontExpectEOF(discardErr)
 	}
 
 	if batch.err == nil {
